@@ -36,6 +36,8 @@ int main(int argc, char** argv) {
       if (c.params == "ram31") return by_elem<R, 3, 1>(p, c);
       if (c.params == "ram40") return by_elem<R, 4, 0>(p, c);
       if (c.params == "ram512") return by_elem<R, 512, 1000>(p, c);
+      if (c.params == "ram110") return by_elem<R, 11, 0>(p, c);      // entries_per_node a multiple of the index step (11)
+      if (c.params == "ram220") return by_elem<R, 22, 0>(p, c);
       fprintf(stderr, "ram: unknown params %s\n", c.params.c_str()); exit(2);
     });
   });
